@@ -15,6 +15,7 @@ RULE = (
     "sampled/strided), every threshold equivalence class of the input incl. thresholds exactly equal to a score, both "
     "many-to-one settings; plus generated split/merged/shifted/tied families. Non-trivial = at least one candidate pair "
     "(overlap); distinct = hash of (arrays, metric, threshold, many_to_one)."
+    ' Further families: nearly tied candidates on large instances; pair codes at 2^8 / 2^16 / 2^32; thousands of candidate pairs in one call; buffers refilled in place between two consecutive calls of a long-lived matcher; the same pair object through threshold sweeps.'
 )
 ASSUMPTIONS = [
     "IoU/Dice scores are quotients of exact integers, so threshold comparisons are decided exactly; ASSD in 2-D/3-D is compared with a 1e-9 guard band, in 1-D exactly (all 1-D ASSD values are multiples of 1/4)",
